@@ -1,15 +1,21 @@
 #!/bin/bash
-# seed_matrix.sh [seed ids...]: run each seed's own property check against a scratch copy with the patch applied
+# seed_matrix.sh [seed ids...]: for every seed run its own property's check (plus the properties given after ':' in
+# seeded/<id>/also.txt) against a scratch copy of /repo/src with the patch applied
 cd /verif
 ids="$@"; [ -z "$ids" ] && ids=$(ls seeded)
 for s in $ids; do
   p=${s%-*}
+  patch=/verif/seeded/$s/patch.diff
   d=$(mktemp -d /var/tmp/seedm.XXXX); rsync -a /repo/src $d/
-  if (cd $d && patch -p1 -s --no-backup-if-mismatch < /verif/seeded/$s/patch.diff >/dev/null 2>&1); then
-     if grep -q "\"$p\"" MANIFEST.json && python3 -c "import json,sys; sys.exit(0 if any(c['property_id']=='$p' for c in json.load(open('/verif/MANIFEST.json'))['checks']) else 1)"; then
-        out=$(./check $p --repo $d 2>&1 | tail -1); rc=$(./check $p --repo $d >/dev/null 2>&1; echo $?)
-        echo "$s rc=$rc $out"
-     else echo "$s property-not-claimed"; fi
-  else echo "$s patch-does-not-apply"; fi
+  if ! (cd $d && patch -p1 -s --no-backup-if-mismatch < $patch >/dev/null 2>&1); then
+     rm -rf $d; d=$(mktemp -d /var/tmp/seedm.XXXX); rsync -a /repo/src $d/
+     alt=$(ls /verif/seeded/$s/patch_rebased_*.diff 2>/dev/null | head -1)
+     if [ -z "$alt" ] || ! (cd $d && patch -p1 -s --no-backup-if-mismatch < $alt >/dev/null 2>&1); then echo "$s patch-does-not-apply"; rm -rf $d; continue; fi
+  fi
+  props="$p $(cat /verif/seeded/$s/also.txt 2>/dev/null)"
+  for q in $props; do
+     out=$(./check $q --repo $d 2>&1); rc=$?
+     echo "$s check=$q rc=$rc $(echo "$out" | tail -1)"
+  done
   rm -rf $d
 done
